@@ -146,16 +146,28 @@ class SSimpleQueue:
         self.s.park("put", detail="exc" if isinstance(x, BaseException) else "ok")
         self.items.append(x)
 
-    def empty(self):
-        if not self.drain_started:
+    def _drain_point(self):
+        # the caller's first look at the results (empty(), get(), get_nowait(), qsize()): one scheduling point "drain"
+        if not self.drain_started and self.s.me() == 0:
             self.drain_started = True
             self.s.park("drain")
+
+    def empty(self):
+        self._drain_point()
         return not self.items
 
+    def qsize(self):
+        self._drain_point()
+        return len(self.items)
+
     def get(self, block=True, timeout=None):
+        self._drain_point()
+        if not self.items:
+            raise _queue.Empty
         return self.items.popleft()
 
     def get_nowait(self):
+        self._drain_point()
         if not self.items:
             raise _queue.Empty
         return self.items.popleft()
